@@ -37,7 +37,7 @@ def run(chk, replay=None):
     for f in sorted(os.listdir(ex)):
         if f.endswith(".simf"):
             progs.append(Prog(open(os.path.join(ex, f)).read(), [], "example/" + f))
-    progs += corelib.gen_programs(chk, 40 if quick else 400, "gdet", size=40, allow_params=False)
+    progs += corelib.gen_programs(chk, 40 if quick else 200, "gdet", size=40, allow_params=False)
     # large programs: encodings of several KiB up to ~100 KiB (output buffering, pipe writes), with many tracked calls
     for n in ((70, 350) if quick else (70, 200, 350, 1200)):
         body = " ".join("assert!(jet::eq_32(%d, %d)); let v%d: u32 = dbg!(%d);" % (k, k, k, k) for k in range(n))
@@ -47,7 +47,7 @@ def run(chk, replay=None):
         progs.append(Prog("type Word = %s;\nfn id(x: Word) -> Word { x }\nfn main() { let w: Word = witness::W; let v: Word = id(w); }" % b, [], "alias/%s" % b))
     progs.append(Prog("fn id(x: Word) -> Word { x }\nfn main() { let w: Word = witness::W; }", [], "alias/undefined"))
     progs += [Prog("fn main() { let x: u8 = y; }", [], "bad/undefined"), Prog("fn main() {", [], "bad/grammar"), Prog("", [], "bad/empty")]
-    nproc = 8 if quick else 24
+    nproc = 8 if quick else 12
     for dbg in (0, 1):
         lines = ["(commit %s () %d)" % (quote(g.text), dbg) for g in progs]
         # N separately started processes (fresh hash seeds each): one process per repetition, all programs in each
